@@ -13,6 +13,7 @@ TRUSTED = [
     'registerRandom is one atomic step: it runs under usedRandomM (checked by the -race run of N simultaneous presentations and by their outcome counts)',
     'correspondence: in-package Go driver harness/server/c08_test.go on the real State / AuthFirstPacket / UsedRandomCleaner goroutine under the virtual clock of testing/synctest (Go 1.24.2, GOEXPERIMENT=synctest), real ClientHellos from client.DirectTLS.Handshake (uTLS), vs the extracted OCaml model (ExtrOcamlBasic only), ocaml/c08_driver.ml; the abstract view of each packet (parses / 32-byte random / sealed block / opens with timestamp) is computed by the driver with the package\'s own processFirstPacket and AES-GCM',
     'Go runtime: map, sync.RWMutex, timers under synctest',
+    'deterministic overlap (D: tokens): State.WorldState.Now is replaced by a function that parks the first caller coming from registerRandom; lock-out of the other presenters is read off runtime.Stack goroutine states inside the synctest bubble; a window that contains no clock read (e.g. between an RUnlock and a Lock) is NOT reachable through this seam and is only sampled by the N-goroutine histories and the -race run',
 ]
 ASSUMPTIONS = [
     'the server clock does not run backwards (histories with non-decreasing times)',
@@ -568,6 +569,28 @@ def search(ctx, verdict, problems):
             verdict.oracle_failure(r[0], 'C08 oracle (search): ' + r[1], dict(case=h.line(), implementation=got))
             found = True
             break
+    if not found:
+        # a window the clock seam does not reach (no clock read inside it) can only be hit by chance: many
+        # batches of simultaneous presentations, plain and under the race detector (which changes the timing)
+        batch = []
+        t = base + 100 * S
+        for i in range(60):
+            h = Hist('srchs%d' % i, t, 'c')
+            k = h.new('tls', h.now // S)
+            h.conc(k, [2, 3, 4, 8, 16, 32, 64][i % 7]); h.present(k)
+            batch.append(h); t = h.now + 5 * S
+        for race in (False, True):
+            rc, log, res, done = run_go(ctx, [h.line() for h in batch], 'search_batch%d' % race, race=race)
+            for h in batch:
+                if h.id in res:
+                    r = oracle(res[h.id][0], h.ops(), res[h.id][1])
+                    if r:
+                        verdict.oracle_failure(r[0], 'C08 oracle (search, %d simultaneous goroutines%s): %s' % (int(h.ops()[0].split(':')[2]), ', -race' if race else '', r[1]),
+                                               dict(case=h.line(), implementation=res[h.id], note='statistical: found in a batch of 60 simultaneous presentations'))
+                        found = True
+                        break
+            if found:
+                break
     return found
 
 
